@@ -68,3 +68,8 @@ pub use literal::{
     parse_binary_blob, parse_date, parse_hex_blob, parse_interval, parse_time, parse_timestamp,
     parse_uuid, parse_vector, LiteralParser, ParsedLiteral,
 };
+
+#[cfg(kahflane_turdb_verif)]
+pub use literal::{
+    verif_lit_date_to_days_since_epoch, verif_lit_days_in_month, verif_lit_is_leap_year,
+};
